@@ -478,10 +478,16 @@ def rule_scan_loop_state(ck: Check, repo: Repo, rid: str = "R12") -> None:
             if cont not in written:
                 continue
             n += 1
-            key = ast.unparse(x.left)
+            key_raw = ast.unparse(x.left)
+            # a key named by a local (`stem = path.stem`) is the expression it stands for
+            from ..rules import deep_text as _dt12
+            try:
+                key = _dt12(repo.func(fq), x.left)
+            except Exception:  # noqa: BLE001
+                key = key_raw
             text = f"{key} in {cont}"
             gs = guards(x, root)
-            stable = only_lref.get(cont) and any(g.replace(" ", "") == f"not_LICENSEREF_PATTERN.match({key})".replace(" ", "") for g in gs)
+            stable = only_lref.get(cont) and any(g.replace(" ", "") == f"not_LICENSEREF_PATTERN.match({k_})".replace(" ", "") for g in gs for k_ in (key, key_raw))
             exc = SCAN_READ_EXCEPTIONS.get((fq.split(".")[-1], text))
             r.instance(f"read:{fq.split('.')[-1]}:{text}", {"function": fq, "test": text, "keys_never_added_by_the_scan": bool(stable), "confirmed_symmetric": exc}, fq)
             if stable or exc:
